@@ -6,19 +6,19 @@ P="$1"; N="$2"; SRC="$3"
 W=/tmp/confirm/$P-$N
 rm -rf "$W"; mkdir -p /tmp/confirm
 git -C /repo worktree add -q --detach "$W" HEAD || exit 2
-run_demo() { (cd "$W" && PYTHONPATH="$W" PYTHONDONTWRITEBYTECODE=1 timeout 300 /venv/bin/python "$SRC/demo.py" >/tmp/confirm/demo.out 2>&1; echo $?); }
+run_demo() { (cd "$W" && PYTHONPATH="$W" PYTHONDONTWRITEBYTECODE=1 timeout 300 /venv/bin/python "$SRC/demo.py" >$W.demo.out 2>&1; echo $?); }
 CLEAN=$(run_demo)
-if ! git -C "$W" apply --check "$SRC/patch.diff" 2>/tmp/confirm/apply.err; then
-  echo "$P-$N: patch does not apply to HEAD: $(head -2 /tmp/confirm/apply.err | tr '\n' ' ')"; git -C /repo worktree remove --force "$W"; exit 1
+if ! git -C "$W" apply --check "$SRC/patch.diff" 2>$W.apply.err; then
+  echo "$P-$N: patch does not apply to HEAD: $(head -2 $W.apply.err | tr '\n' ' ')"; git -C /repo worktree remove --force "$W"; exit 1
 fi
 git -C "$W" apply "$SRC/patch.diff"
 BROKEN=$(run_demo)
-TESTS=$(cd "$W" && PYTHONPATH="$W" PYTHONDONTWRITEBYTECODE=1 /venv/bin/python -m pytest -q -p no:cacheprovider --timeout=900 --continue-on-collection-errors --junitxml=/tmp/confirm/j.xml 2>&1 | tail -1)
-MISSING=$(/venv/bin/python - <<'PY'
+TESTS=$(cd "$W" && PYTHONPATH="$W" PYTHONDONTWRITEBYTECODE=1 /venv/bin/python -m pytest -q -p no:cacheprovider --timeout=900 --continue-on-collection-errors --junitxml=$W.j.xml 2>&1 | tail -1)
+MISSING=$(JX=$W.j.xml /venv/bin/python - <<'PY'
 import json, xml.etree.ElementTree as ET
 want=set(json.load(open('/root/.vp/BASELINE.json'))['stable_pass'])
 passed=set()
-for tc in ET.parse('/tmp/confirm/j.xml').iter('testcase'):
+for tc in ET.parse(__import__("os").environ["JX"]).iter('testcase'):
     if not any(c.tag in ('failure','error','skipped') for c in tc):
         passed.add(tc.get('classname')+'::'+tc.get('name'))
 print(len(want-passed))
